@@ -1,0 +1,22 @@
+//go:build verif
+
+package modules
+
+// VerifResetLifecycle returns the global module registry and the lifecycle flags to their
+// pristine state so that the verification harness of the lifecycle property (C01) can run many
+// Register/Start/ManageModules/Shutdown scenarios in one process. It mirrors the package's own
+// test helper resetTestEnvironment and additionally clears module management and the
+// initial-start flag. It must only be called while no Start/ManageModules/Shutdown is running.
+func VerifResetLifecycle() {
+	mgmtLock.Lock()
+	defer mgmtLock.Unlock()
+
+	modules = make(map[string]*Module)
+	shutdownSignal = make(chan struct{})
+	shutdownCompleteSignal = make(chan struct{})
+	shutdownFlag.UnSet()
+	modulesLocked.UnSet()
+	initialStartCompleted.UnSet()
+	moduleMgmtEnabled.UnSet()
+	modulesChangeNotifyFn = nil
+}
